@@ -20,6 +20,7 @@ func init() {
 func runC19(c *Ctx) {
 	p := c.P
 	ix := p.Index()
+	ra := resolveRegAnchors(p)
 	// ---- start-gating: who calls the request-table callback
 	var opener *ssa.Function
 	nSites := 0
@@ -68,15 +69,15 @@ func runC19(c *Ctx) {
 		s := regSumm(p, 0)
 		dp, _ := s.Function(drain)
 		for _, ps := range dp {
-			if len(ps.Calls("."+opener.Name())) == 0 {
+			if len(callsTo(ps, opener)) == 0 {
 				continue
 			}
 			noTable := hasCond(ps, func(v *Val) bool { return v.K == KAtom && v.At.Op == "eq" && !v.Neg && v.At.A.String() == "recv.tableCount" })
 			if noTable && !hasCond(ps, func(v *Val) bool {
-				return v.K == KAtom && v.At.Op == "lt" && v.Neg && v.At.A.String() == "len(recv.waitingQueue) - recv.minInitialPlayers"
+				return ltIs(v, "-len(recv.waitingQueue) + recv.minInitialPlayers - 1")
 			}) {
 				// the other way to reach it with tableCount==0 is contradictory (tableCount > 0 tested later): accept if path also has tableCount > 0
-				if !hasCond(ps, func(v *Val) bool { return v.K == KAtom && v.At.Op == "le" && v.Neg && v.At.A.String() == "recv.tableCount" }) {
+				if !hasCond(ps, func(v *Val) bool { return ltIs(v, "-recv.tableCount") }) {
 					bad = append(bad, fnKey(drain)+" opens the first table without the queue holding the minimum initial players: path ["+ps.CondString()+"]")
 				}
 			}
@@ -87,7 +88,7 @@ func runC19(c *Ctx) {
 			s2 := regSumm(p, 0)
 			upp, _ := s2.Function(up)
 			for _, ps := range upp {
-				if len(ps.Calls("."+drain.Name())) == 0 {
+				if len(callsTo(ps, drain)) == 0 {
 					continue
 				}
 				gated := hasCond(ps, func(v *Val) bool { return isPendingAtom(v, true) }) // status != Pending
@@ -117,7 +118,7 @@ func runC19(c *Ctx) {
 			}
 			noTable := hasCond(ps, func(v *Val) bool { return v.K == KAtom && v.At.Op == "eq" && !v.Neg && v.At.A.String() == "recv.tableCount" })
 			if reachesLoop && noTable && !hasCond(ps, func(v *Val) bool {
-				return v.K == KAtom && v.At.Op == "lt" && v.Neg && v.At.A.String() == "-recv.minInitialPlayers + recv.playerCount"
+				return ltIs(v, "recv.minInitialPlayers - recv.playerCount - 1")
 			}) {
 				bad2 = append(bad2, "the first tables are allocated without the test playerCount >= minInitialPlayers")
 			}
@@ -131,7 +132,7 @@ func runC19(c *Ctx) {
 					if e.Kind == "call" && strings.HasPrefix(e.Callee, "dynamic:") && len(e.Args) == 1 {
 						req = e
 					}
-					if e.Kind == "call" && strings.HasSuffix(e.Callee, ".getPlayersFromWaitingQueue") {
+					if e.Kind == "call" && e.Fn != nil && ra.poppers[e.Fn] {
 						pop = e
 					}
 				}
@@ -142,8 +143,13 @@ func runC19(c *Ctx) {
 				// water level >= minInitialPlayers on this iteration
 				wl := ""
 				for _, cd := range bp.Conds {
-					if cd.V.K == KAtom && cd.V.At.Op == "lt" && cd.V.Neg && strings.HasSuffix(cd.V.At.A.String(), " - recv.minInitialPlayers") && strings.HasPrefix(cd.V.At.A.String(), "iter:") {
-						wl = strings.TrimSuffix(cd.V.At.A.String(), " - recv.minInitialPlayers")
+					// waterLevel >= minInitialPlayers  ==  min - wl - 1 < 0
+					if a, ok := ltForm(cd.V); ok && a.C == -1 && len(a.T) == 2 && a.T["recv.minInitialPlayers"] == 1 {
+						for t, co := range a.T {
+							if co == -1 && strings.HasPrefix(t, "iter:") {
+								wl = t
+							}
+						}
 					}
 				}
 				if wl == "" {
@@ -160,10 +166,10 @@ func runC19(c *Ctx) {
 				case "len(recv.waitingQueue)":
 					// the rest of the queue for the last table: only when it is above the water level and below the maximum
 					a := hasCond(bp, func(v *Val) bool {
-						return v.K == KAtom && v.At.Op == "le" && v.Neg && v.At.A.String() == "-"+wl+" + len(recv.waitingQueue)"
+						return ltIs(v, wl+" - len(recv.waitingQueue)")
 					})
 					b := hasCond(bp, func(v *Val) bool {
-						return v.K == KAtom && v.At.Op == "lt" && !v.Neg && v.At.A.String() == "len(recv.waitingQueue) - recv.maxPlayersPerTable"
+						return ltIs(v, "len(recv.waitingQueue) - recv.maxPlayersPerTable")
 					})
 					if !a || !b {
 						bad2 = append(bad2, "the whole queue is put on one table without the test len(queue) < maxPlayersPerTable")
@@ -177,7 +183,7 @@ func runC19(c *Ctx) {
 	}
 
 	// ---- assign-bounded-by-required (shares the dispatch rule of C09)
-	if dp := p.Func(regPkg, "regulator", "dispatchPlayer"); dp == nil {
+	if dp := ra.dispatcher; dp == nil {
 		c.undecided("assign-bounded-by-required", "dispatchPlayer", "-", "not found")
 	} else {
 		sub := newCtx(p, c.Prop, c.Tier)
@@ -211,8 +217,15 @@ func runC19(c *Ctx) {
 	}
 
 	// ---- topup-bounded
-	rp := p.Func(regPkg, "regulator", "requestPlayers")
 	sync := p.Func(regPkg, "regulator", "SyncState")
+	var rp *ssa.Function
+	if sync != nil {
+		for f := range ra.poppers {
+			if ix.Info[sync].TCalls[f] {
+				rp = f
+			}
+		}
+	}
 	if rp == nil || sync == nil {
 		c.undecided("topup-bounded", "requestPlayers", "-", "not found")
 		return
@@ -248,10 +261,11 @@ func runC19(c *Ctx) {
 			}
 		}
 		// the count asked for in SyncState is floor(waterLevel) - current table count
+		s.HelperInline = ra.helperFilter(p, sync)
 		sp, _ := s.Function(sync)
 		n := 0
 		for _, ps := range sp {
-			for _, e := range ps.Calls(".requestPlayers") {
+			for _, e := range callsTo(ps, rp) {
 				n++
 				cnt := e.Args[1].asAff()
 				// current count of the syncing table at this point: PlayerCount - out
